@@ -56,6 +56,8 @@ def O_DATA_PAYLOAD_OFFSET : Nat := 17476
 def O_MAX_SEGMENTS : Nat := 16384
 def O_MAX_SEGMENT_SIZE : Nat := 256
 def O_DATA_WRITTEN : Nat := 51
+def O_DATA_NOT_WRITTEN : Nat := 255
+def O_WRITTEN_SIZE : Nat := 16384
 def O_SEQ_INVALID : Nat := 4294967295
 
 end Fuota.Consts
